@@ -1065,6 +1065,9 @@ Matrix Outer_Vector_Product(const Vector& lhs, const Vector& rhs)
 Matrix Householder_Matrix(const Matrix& M)
 {
 	Vector x	 = M.Return_Column(0);
+	// A column of zeros needs no reflection (and offers no direction to normalize).
+	if(x.Norm() == 0.0)
+		return Identity_Matrix(x.Size());
 	double alpha = Sign(x.Norm(), -x[0]);
 	Vector e1(x.Size(), 0.0);
 	e1[0]	 = 1.0;
